@@ -457,6 +457,7 @@ package sqlittle
 // the nested primary-key lookup keeps the first entry equal to the key and stops; the result cell is
 // empty when the lookup starts, so "nothing found" cannot be masked by an earlier entry's row
 //@ func sqlittle.indexedSelectNonRowid$1$1
+//@   props C02 C03 C12 C05
 //@   implements functype db.RecordCB
 //@   creation-requires [clean] found == nil
 //@   ensures [stops] done
@@ -504,6 +505,7 @@ package sqlittle
 // the nested primary-key lookup keeps the first entry equal to the key and stops; the result cell is
 // empty when the lookup starts, so "nothing found" cannot be masked by an earlier entry's row
 //@ func sqlittle.indexedSelectEqNonRowid$1$1
+//@   props C02 C03 C12 C05
 //@   implements functype db.RecordCB
 //@   creation-requires [clean] found == nil
 //@   ensures [stops] done
